@@ -7,7 +7,7 @@ func init() {
 }
 
 func VerifC02_KTfid() {
-	h := vndChoice("h", 6) // 0..5 frames
+	h := vndChoice("h", vParam("maxh", 6)) // 0..maxh-1 frames (chains much longer than any one construct contributes: every nested special form and every function of a mutual-recursion ring adds a terminal frame)
 	// FIDs are one-byte strings over {f,g,h} with the byte left symbolic: the code under
 	// test only compares them, so the solver splits on equality, not on the spelling.
 	fid := func(name string) string {
@@ -19,7 +19,11 @@ func VerifC02_KTfid() {
 	for i := 0; i < h; i++ {
 		s.Frames[i].FID = fid("fid")
 		s.Frames[i].Terminal = vndBool("terminal")
-		s.Frames[i].TROBlock = vndBool("block")
+		// a blocked frame makes the code under test print the WHOLE stack (one fork per symbolic flag of
+		// every frame): blocked frames are explored on the short stacks only
+		if h <= 5 {
+			s.Frames[i].TROBlock = vndBool("block")
+		}
 	}
 	q := fid("query")
 	// reference: walk from the top; stop at the first non-terminal (0), panic at a blocked
